@@ -273,6 +273,18 @@ def info_case(rng):
         if rng.random() < 0.5:
             ss.append(p.emit([p.str("gap")]))
     for i in range(nfun):
+        if rng.random() < 0.4:      # the same function as the body of a coroutine: its description does not depend on who runs it
+            ctor = rng.choice(["wrap", "create"])
+            # the body describes itself (the bottom frame of its thread) and calls fnN, which looks at it from level 2
+            bodyf = p.func([], p.block([p.local(["me"], [p.call(_dbg(p, "getinfo"), [p.num(1), p.str("S")])]),
+                                        p.emit([p.str("body"), p.field(p.id("me"), "linedefined"), p.field(p.id("me"), "lastlinedefined"),
+                                                p.field(p.call(_dbg(p, "getinfo"), [p.num(1), p.str("l")]), "currentline")]),
+                                        p.callstat(p.call(p.id("fn%d" % i), [])),
+                                        p.emit([p.str("body-after"), p.field(p.call(_dbg(p, "getinfo"), [p.num(1), p.str("S")]), "linedefined")])]))
+            if ctor == "wrap":
+                ss.append(p.callstat(p.call(p.call(p.field(p.id("coroutine"), "wrap"), [bodyf]), [])))
+            else:
+                ss.append(p.emit([p.str("co"), p.call(p.field(p.id("coroutine"), "resume"), [p.call(p.field(p.id("coroutine"), "create"), [bodyf])])]))
         ss.append(p.callstat(p.call(p.id("fn%d" % i), [])))
         ss.append(p.local(["fi"], [p.call(_dbg(p, "getinfo"), [p.id("fn%d" % i), p.str("S")])]))
         ss.append(p.emit([p.str("of%d" % i), p.field(p.id("fi"), "linedefined"), p.field(p.id("fi"), "lastlinedefined")]))
